@@ -28,6 +28,13 @@ Fixpoint plain_ops (m : amap) (ops : list sop) (out : list N) : option (amap * l
   | OPut k v :: rest => plain_ops (aset m k (Some v)) rest out
   | ODel k :: rest => plain_ops (aset m k None) rest out
   | OFail :: _ => None
+  | OTransfer from to value _ :: rest =>
+      (* plain-map reading of a successful transfer: value moves, an emptied account disappears *)
+      let fb := match alook m from with Some v => be_dec v | None => 0 end in
+      if (value =? 0) || (fb <? value) then None else
+      let m1 := aset m from (if fb - value =? 0 then None else Some (be64 (fb - value))) in
+      let tb := match alook m1 to with Some v => be_dec v | None => 0 end in
+      plain_ops (aset m1 to (Some (be64 (tb + value)))) rest (out ++ [0] ++ be64 (fb - value) ++ be64 (tb + value))
   end.
 
 (* run the first [n] actions; returns the map and the outputs *)
@@ -56,7 +63,8 @@ Definition plain_tx (prices : list N) (m : amap) (t : tx) (res : result) : optio
   let f := res_fee res in
   if negb (f =? fee_of prices (res_units res)) then None else          (* charged exactly prices x units *)
   if bal m (t_sponsor_key t) <? f then None else
-  let m1 := aset m (t_sponsor_key t) (Some (be64 (bal m (t_sponsor_key t) - f))) in   (* fee first *)
+  let nb := bal m (t_sponsor_key t) - f in
+  let m1 := aset m (t_sponsor_key t) (if t_morpheus t && (nb =? 0) then None else Some (be64 nb)) in   (* fee first *)
   if res_success res then
     match plain_actions m1 (t_actions t) (length (t_actions t)) with
     | Some (m2, outs) => if list_eqb nlist_eqb outs (res_outputs res) then Some m2 else None   (* all effects *)
